@@ -60,6 +60,21 @@ def check_one(cfg, exp):
         lk = GA.index_lookup(np.array(vals), np.array(want_c))
         if [int(x) for x in lk] != want_i:
             return ('index_lookup', want_i, [float(x) for x in lk])
+        # lookups against a category list that LACKS some of the values (numbers and text): the position of the value in the
+        # list, NaN for a value that is not listed
+        for as_number in (True, False):
+            conv = (lambda v: float(sorted(set(SYM.values())).index(v) * 2 + 1)) if as_number else (lambda v: v)
+            data = np.array([conv(v) for v in vals])
+            cats = sorted(set(conv(v) for v in vals))
+            for drop in range(len(cats) + 1):
+                items = [c for k, c in enumerate(cats) if k != drop]
+                if not items:
+                    continue
+                lk = GA.index_lookup(data, np.array(items))
+                want_lk = [float(items.index(x)) if x in items else float('nan') for x in data.tolist()]
+                got_lk = [float(x) for x in np.asarray(lk, dtype=float)]
+                if not all((a == b) or (a != a and b != b) for a, b in zip(got_lk, want_lk)) or len(got_lk) != len(want_lk):
+                    return ('index_lookup_missing[%s]' % ('numbers' if as_number else 'text'), want_lk, got_lk)
         # the same values in every 2-d arrangement of the sequence and every memory layout: codes are positional, so
         # categories[codes] must reproduce the array element by element whatever the strides
         n = len(vals)
